@@ -238,8 +238,10 @@ class DisplacementMove(
             If the length of the labels is not equal to the number of atoms.
         """
         if len(added_indices):
-            label: int = self.default_label or (
-                np.max(self.unique_labels) + 1 if len(self.unique_labels) else 0
+            label: int = (
+                self.default_label
+                if self.default_label is not None
+                else (np.max(self.unique_labels) + 1 if len(self.unique_labels) else 0)
             )
             self.set_labels(
                 np.hstack((self.labels, np.full(len(added_indices), label)))
